@@ -303,6 +303,14 @@ def Vehicle.initialState (v : Vehicle α) : VState α :=
     | .phev _ _ b => asSocPercent b.startEnergy b.capacity
   { time := zero, distance := zero, liquid := zero, electric := zero, soc := soc }
 
+/-- `search_app_ops::collect_features` lets the query's `state_features` replace a state feature of
+the same type, including the initial value of `battery_state`; `StateModel::initial_state` then
+starts from that value (no range check on this path) -/
+def Vehicle.initialStateWith (v : Vehicle α) (socOverride : Option α) : VState α :=
+  match socOverride with
+  | none => v.initialState
+  | some y => { v.initialState with soc := y }
+
 /-- the range check and start energy shared by `BEV::update_from_query` and `PHEV::update_from_query` -/
 def Battery.withStartSoc (b : Battery α) (soc : α) : Except Err (Battery α) :=
   if (zero : α) ≤ soc ∧ soc ≤ (hundred : α) then
